@@ -101,6 +101,11 @@ class History:
         elif op == 'comment':
             if step['pr'] in w.prs:
                 w.comment(step['pr'], step['user'], step['text'])
+                from vf.sim.monitors import COMMAND_TEXTS
+                key = COMMAND_TEXTS.get(step['text'].strip())
+                if key:
+                    d = self.mon_state.setdefault('c10_posted', {})
+                    d[(step['pr'], key)] = d.get((step['pr'], key), 0) + 1
         elif op == 'delete_comment':
             mine = [c for c in w.comments(step['pr']) if c[1] != ROBOT]
             if mine:
@@ -153,6 +158,10 @@ class History:
             results.append(self.run(job, step))
         elif op == 'placed':
             results.extend(self.apply_placed(step))
+        elif op == 'twin':
+            self.apply_twin(step)
+        elif op == 'repeat':
+            results.extend(self.apply_repeat(step))
         elif op == 'drain':
             # run whatever jobs an admin job left in the task queue
             n = 0
@@ -266,6 +275,90 @@ class History:
             w.restore(snap)
             w.drop_snapshot(snap)
 
+    @staticmethod
+    def outcome(res):
+        return {'status': res.status,
+                'heads': sorted(res.heads1.items()),
+                'tags': sorted(res.tags1.items()),
+                'host': res.host1,
+                'error': type(res.error).__name__ if res.error else None}
+
+    def on_snapshot(self, fn):
+        """Run fn() on a snapshot of the world, then restore it."""
+        import copy
+        w = self.world
+        snap = w.snapshot()
+        saved = copy.deepcopy(self.mon_state)
+        try:
+            return fn()
+        finally:
+            self.mon_state = saved
+            w.restore(snap)
+            w.drop_snapshot(snap)
+
+    def apply_twin(self, step):
+        """Run job recipe step['a'] and step['b'] from the same snapshot
+        (b optionally on a fresh Bert-E instance) and compare outcomes."""
+        def run_one(js, fresh=False, pre=()):
+            def go():
+                if fresh:
+                    self.world.new_berte()
+                for p in pre:
+                    self.apply_quiet(p)
+                job = self.job_from(js)
+                if job is None:
+                    return None
+                return self.outcome(self.run(job, step))
+            return self.on_snapshot(go)
+        a = run_one(step['a'], pre=step.get('pre_a', ()))
+        b = run_one(step['b'], fresh=step.get('fresh_b', False),
+                    pre=step.get('pre_b', ()))
+        self.count('twin_' + step.get('tag', 'x'))
+        if a is None or b is None:
+            return
+        ignore = step.get('ignore', ())
+        diffs = [k for k in a if k not in ignore and a[k] != b[k]]
+        if diffs:
+            detail = '; '.join('%s: %r vs %r' % (
+                k, _short(a[k], b[k])[0], _short(a[k], b[k])[1])
+                for k in diffs)
+            self.violations.append((
+                '%s: twin runs differ (%s vs %s): %s' % (
+                    step.get('tag', 'twin'), step['a'], step['b'], detail),
+                {'monitor': step.get('tag', 'twin'),
+                 'clause': 'twin_differs_' + '_'.join(sorted(diffs))}))
+
+    def apply_quiet(self, step):
+        """Apply a non-job step without logging it (used inside twins)."""
+        n = len(self.steps)
+        self.apply(step)
+        del self.steps[n:]
+
+    def apply_repeat(self, step):
+        """C10: deliver the same event `times` times on the long-lived
+        instance; by the last repetition nothing may change."""
+        out = []
+        for i in range(step.get('times', 3)):
+            job = self.job_from(step['job'])
+            if job is None:
+                return out
+            res = self.run(job, dict(step, rep=i))
+            out.append(res)
+        if len(out) >= 3:
+            a, b = self.outcome(out[-2]), self.outcome(out[-1])
+            # compare state only (status of a no-op may legitimately repeat)
+            keys = ('heads', 'tags', 'host')
+            diffs = [k for k in keys if a[k] != b[k]]
+            self.count('repeat_checked')
+            if diffs:
+                self.violations.append((
+                    'C10: repeating %s a third time still changed %s: %r'
+                    % (step['job'], diffs,
+                       _short(a[diffs[0]], b[diffs[0]])),
+                    {'monitor': 'C10', 'clause': 'no_convergence',
+                     'what': diffs[0]}))
+        return out
+
     def run(self, job, step):
         for m in self.monitors:
             m.before_job(self, job, step)
@@ -281,6 +374,23 @@ class History:
         for m in self.monitors:
             for msg, sig in m.after_job(self, res, step) or ():
                 self.violations.append((msg, sig))
+
+
+def _short(a, b):
+    """Return only the differing parts of two outcomes (for messages)."""
+    if isinstance(a, list) and isinstance(b, list):
+        sa, sb = [x for x in a if x not in b], [x for x in b if x not in a]
+        return sa[:4], sb[:4]
+    if isinstance(a, dict) and isinstance(b, dict):
+        ka = {k: v for k, v in a.items() if b.get(k) != v}
+        kb = {k: v for k, v in b.items() if a.get(k) != v}
+        return _trim(ka), _trim(kb)
+    return a, b
+
+
+def _trim(x, n=300):
+    s = repr(x)
+    return s if len(s) <= n else s[:n] + '...'
 
 
 class Monitor:
